@@ -20,16 +20,16 @@ FUNCTIONS = ["DataFrameToFlodymDataConverter._check_data_complete", "DataFrameTo
 ASSUMPTIONS = ["no cell value truncates to a numeric item of a dimension (value/item confusion is explored by C11)", "cell values pairwise different for frames with more than 4 cells", "file parsing is outside: pd.read_csv / pd.read_excel are replaced by a stub returning the prepared frame (the readers' flag forwarding and the call into from_df are inside)",
                "no cell value truncates to a numeric item of a dimension for frames with more than 4 cells"]
 OUTSIDE = ["CSV / Excel text parsing", "more than two simultaneous faults", "frames with more than 6 rows"]
-VARIANTS = 'labels stored as text in an integer dimension; row labels as pd.concat leaves them; falsy unknown labels; readers through CompoundDataReader.read_parameters; an ignored row without a value'
-BOUNDS = {"quick": dict(dimsets=["r2", "T2_r2", "r2_p3u", "s1_r2_p2"], layouts="long (columns / index) and wide", faults="every single fault at every position; every pair on frames <= 4 rows",
+VARIANTS = 'labels stored as text in an integer dimension; row labels as pd.concat leaves them; falsy unknown labels; readers through CompoundDataReader.read_parameters; an ignored row without a value; a 1-d array over items 0..n-1; infinite present entries (float64 run)'
+BOUNDS = {"quick": dict(dimsets=["r2", "a3i0", "T2_r2", "r2_p3u", "s1_r2_p2"], layouts="long (columns / index) and wide", faults="every single fault at every position; every pair on frames <= 4 rows",
                         flags="all four combinations"),
-          "thorough": dict(dimsets=["r2", "t2i", "T2_r2", "r2_p3u", "s1_r2_p2", "T2_r2_p2"], layouts="as quick", faults="every single fault and every pair at every position (frames <= 8 rows)", flags="all four combinations")}
+          "thorough": dict(dimsets=["r2", "a3i0", "t2i", "T2_r2", "r2_p3u", "s1_r2_p2", "T2_r2_p2"], layouts="as quick", faults="every single fault and every pair at every position (frames <= 8 rows)", flags="all four combinations")}
 for _t in BOUNDS.values():
     _t["variants_beyond_the_base_enumeration"] = VARIANTS
 OPTS = {"quick": dict(shadow_every=25, max_paths=300, max_depth=600), "thorough": dict(shadow_every=100, max_paths=1000, max_depth=1500)}
 # rows with unknown labels get NaN positions: the float64 path casts them to an integer silently where the object path would
 # raise, so these configurations are always run once more on the unstubbed float64 code as well (shadow, 2.5)
-SHADOW_ALWAYS = lambda cfg: any(f[0].startswith(("relabel", "extra_row")) for f in cfg.get("faults", []))
+SHADOW_ALWAYS = lambda cfg: cfg.get("infinite") or any(f[0].startswith(("relabel", "extra_row")) for f in cfg.get("faults", []))
 FLAGS = [(False, False), (True, False), (False, True), (True, True)]  # (allow_missing, allow_extra)
 
 
@@ -87,6 +87,14 @@ def configs(tier, seed):
                     if layout in ("long_cols", "long_cols_letters") and any(f[0] in ("extra_row", "extra_row_falsy", "extra_row_blank", "dup", "dup_other_value", "dup_retyped") for f in fs) and (len(fs) == 1 or tier == "thorough" or hash(str(fs)) % 3 == 0):
                         # the same frame with the row labels pd.concat leaves behind (added rows repeat labels of the table)
                         out.append(dict(h="faults", op=layout + "_concat", key=f"faults/{name}/{layout}/{fk}/am={int(am)}/ae={int(ae)}/rowlabels=concat", ds=name, layout=layout, faults=[list(f) for f in fs], am=am, ae=ae, rowlabels="concat"))
+        # present entries that are infinite (decided by the float64 run of the same harness, always carried out)
+        for layout in ("long_cols", "wide"):
+            if layout == "wide" and len(DIMSETS[name]) < 2:
+                continue
+            for fs in ([], [("blank_nan", 0) if layout != "wide" else ("blank_nan", 0, 0)], [("drop", 0)]):
+                for (am, ae) in FLAGS:
+                    fk = "+".join("_".join(map(str, f)) for f in fs) or "none"
+                    out.append(dict(h="faults", op=layout, key=f"faults/{name}/{layout}/{fk}/am={int(am)}/ae={int(ae)}/infinite_values", ds=name, layout=layout, faults=[list(f) for f in fs], am=am, ae=ae, infinite=True))
         # two imports in one process over same-named dimensions with other item orders (no state may leak)
         if len(DIMSETS[name]) >= 1 and n <= 6:
             for (am, ae) in FLAGS:
@@ -123,6 +131,11 @@ def _build(cfg, w):
     X = w.arr("x", dims.shape, default=lambda idx: (-1) ** sum(idx) * (10.375 + 1.25 * sum((k + 1) * 3 ** k * i for k, i in enumerate(idx))))
     if X.size > 4:
         w.assume_distinct(X)
+    if cfg.get("infinite") and not w.sym:
+        # float64 run only (the exact-real model has no infinities): the first entry is +inf, the last -inf -- present
+        # entries like any other ("inf" in a CSV file for an unlimited capacity)
+        X = X.copy()
+        X.flat[0], X.flat[X.size - 1] = np.inf, -np.inf
     extra_syms = []
 
     def fresh(nm, default):
